@@ -165,7 +165,21 @@ func c08reproProgram(rng *rand.Rand) (src string, wantValue string) {
 		}
 		return strings.Join(p, ", ")
 	}
-	switch rng.Intn(16) {
+	switch rng.Intn(18) {
+	case 16, 17:
+		// containers compared with == / !=: their elements' own `==` (user-defined, printing) is called in a fixed order
+		var xs, ys []string
+		for i, nm := range names {
+			xs = append(xs, fmt.Sprintf("%s: T.bear({n: %d})", nm, i))
+			ys = append(ys, fmt.Sprintf("%s: T.bear({n: %d})", nm, i))
+		}
+		body := "T := {'==: m{|o| .n.p; true}, '!=: m{|o| .n.p; false}}\n"
+		if rng.Intn(2) == 0 {
+			return body + "x := {" + strings.Join(xs, ", ") + "}\ny := {" + strings.Join(ys, ", ") + "}\n(x == y).p; (x != y).p; ([x] == [y]).p; x == y", "true"
+		}
+		qx := strings.ReplaceAll(strings.Join(xs, ", "), ": T", "\": T")
+		qx = "\"" + strings.ReplaceAll(qx, ", ", ", \"")
+		return body + "x := %{" + qx + "}\ny := %{" + qx + "}\n(x == y).p; (x != y).p; x == y", "true"
 	case 0:
 		return "({\\_}(" + pairs(":", false) + ")).p; {\\_.keys}(" + pairs(":", false) + ")", ""
 	case 1:
